@@ -437,3 +437,47 @@ package tally
 //@   loop 1 invariant @cached_value cachedHistogram != nil && htype == valueHistogramType ==> (forall i int :: 0 <= i && i <= rangeindex ==> calls[old(len(calls)) + i] == ev(CachedHistogram.ValueBucket, cachedHistogram, (i == 0 ? -math.MaxFloat64 : vup(storage.hbuckets, i-1)), vup(storage.hbuckets, i)) && same(h.samples[i].cachedBucket, ires(old(len(calls)) + i)))
 //@   loop 1 invariant @cached_duration cachedHistogram != nil && htype == durationHistogramType ==> (forall i int :: 0 <= i && i <= rangeindex ==> calls[old(len(calls)) + i] == ev(CachedHistogram.DurationBucket, cachedHistogram, (i == 0 ? math.MinInt64 : dup(storage.hbuckets, i-1)), dup(storage.hbuckets, i)) && same(h.samples[i].cachedBucket, ires(old(len(calls)) + i)))
 //@   loop 1 invariant @storage_untouched forall i int :: 0 <= i && i < len(storage.hbuckets) ==> same(vup(storage.hbuckets, i), old(vup(storage.hbuckets, i))) && dup(storage.hbuckets, i) == old(dup(storage.hbuckets, i))
+
+//@ pred delta(h *histogram, i int) { wrap64(h.samples[i].counter.curr - h.samples[i].counter.prev) }
+//@ pred bucketEvent(h *histogram, r StatsReporter, name string, tags map[string]string, i int, n int64) { h.htype == valueHistogramType ? ev(StatsReporter.ReportHistogramValueSamples, r, name, tags, h.specification, (i == 0 ? -math.MaxFloat64 : vup(h.buckets, i-1)), vup(h.buckets, i), n) : ev(StatsReporter.ReportHistogramDurationSamples, r, name, tags, h.specification, (i == 0 ? math.MinInt64 : dup(h.buckets, i-1)), dup(h.buckets, i), n) }
+
+//@ func (*histogram).report
+//@   property C01, C03
+//@   emits
+//@   requires histWF(h) && r != nil && (h.htype == valueHistogramType || h.htype == durationHistogramType)
+//@   modifies all counter.prev
+//@   ensures @prefix forall j int :: 0 <= j && j < old(len(calls)) ==> calls[j] == old(calls[j])
+//@   ensures @at_most_one_per_bucket old(len(calls)) <= len(calls) && len(calls) <= old(len(calls)) + len(h.buckets)
+//@   ensures @every_event_is_a_bucket_delta forall p int :: old(len(calls)) <= p && p < len(calls) ==> (exists i int :: 0 <= i && i < len(h.buckets) && old(delta(h, i)) != 0 && calls[p] == bucketEvent(h, r, name, tags, i, old(delta(h, i))))
+//@   ensures @every_nonempty_bucket_reported forall i int :: 0 <= i && i < len(h.buckets) && old(delta(h, i)) != 0 ==> (exists p int :: old(len(calls)) <= p && p < len(calls) && calls[p] == bucketEvent(h, r, name, tags, i, old(delta(h, i))))
+//@   ensures @consumed forall i int :: 0 <= i && i < len(h.buckets) ==> h.samples[i].counter.prev == old(h.samples[i].counter.curr)
+//@   ensures @others_untouched forall c *counter :: (forall i int :: 0 <= i && i < len(h.buckets) ==> c != h.samples[i].counter) ==> c.prev == old(c.prev)
+//@   loop 1 invariant @idx 0 <= rangeindex + 1 && rangeindex + 1 <= len(h.buckets)
+//@   loop 1 invariant @prefix forall j int :: 0 <= j && j < old(len(calls)) ==> calls[j] == old(calls[j])
+//@   loop 1 invariant @count old(len(calls)) <= len(calls) && len(calls) <= old(len(calls)) + rangeindex + 1
+//@   loop 1 invariant @events forall p int :: old(len(calls)) <= p && p < len(calls) ==> (exists i int :: 0 <= i && i <= rangeindex && old(delta(h, i)) != 0 && calls[p] == bucketEvent(h, r, name, tags, i, old(delta(h, i))))
+//@   loop 1 invariant @reported forall i int :: 0 <= i && i <= rangeindex && old(delta(h, i)) != 0 ==> (exists p int :: old(len(calls)) <= p && p < len(calls) && calls[p] == bucketEvent(h, r, name, tags, i, old(delta(h, i))))
+//@   loop 1 invariant @consumed forall i int :: 0 <= i && i <= rangeindex ==> h.samples[i].counter.prev == old(h.samples[i].counter.curr)
+//@   loop 1 invariant @pending forall i int :: rangeindex < i && i < len(h.buckets) ==> h.samples[i].counter.prev == old(h.samples[i].counter.prev)
+//@   loop 1 invariant @others_untouched forall c *counter :: (forall i int :: 0 <= i && i < len(h.buckets) ==> c != h.samples[i].counter) ==> c.prev == old(c.prev)
+
+//@ func (*histogram).cachedReport
+//@   property C01, C03
+//@   emits
+//@   requires histWF(h) && (h.htype == valueHistogramType || h.htype == durationHistogramType)
+//@   requires forall i int :: 0 <= i && i < len(h.samples) ==> h.samples[i].cachedBucket != nil
+//@   modifies all counter.prev
+//@   ensures @prefix forall j int :: 0 <= j && j < old(len(calls)) ==> calls[j] == old(calls[j])
+//@   ensures @at_most_one_per_bucket old(len(calls)) <= len(calls) && len(calls) <= old(len(calls)) + len(h.buckets)
+//@   ensures @every_event_is_a_bucket_delta forall p int :: old(len(calls)) <= p && p < len(calls) ==> (exists i int :: 0 <= i && i < len(h.buckets) && old(delta(h, i)) != 0 && calls[p] == ev(CachedHistogramBucket.ReportSamples, h.samples[i].cachedBucket, old(delta(h, i))))
+//@   ensures @every_nonempty_bucket_reported forall i int :: 0 <= i && i < len(h.buckets) && old(delta(h, i)) != 0 ==> (exists p int :: old(len(calls)) <= p && p < len(calls) && calls[p] == ev(CachedHistogramBucket.ReportSamples, h.samples[i].cachedBucket, old(delta(h, i))))
+//@   ensures @consumed forall i int :: 0 <= i && i < len(h.buckets) ==> h.samples[i].counter.prev == old(h.samples[i].counter.curr)
+//@   ensures @others_untouched forall c *counter :: (forall i int :: 0 <= i && i < len(h.buckets) ==> c != h.samples[i].counter) ==> c.prev == old(c.prev)
+//@   loop 1 invariant @idx 0 <= rangeindex + 1 && rangeindex + 1 <= len(h.buckets)
+//@   loop 1 invariant @prefix forall j int :: 0 <= j && j < old(len(calls)) ==> calls[j] == old(calls[j])
+//@   loop 1 invariant @count old(len(calls)) <= len(calls) && len(calls) <= old(len(calls)) + rangeindex + 1
+//@   loop 1 invariant @events forall p int :: old(len(calls)) <= p && p < len(calls) ==> (exists i int :: 0 <= i && i <= rangeindex && old(delta(h, i)) != 0 && calls[p] == ev(CachedHistogramBucket.ReportSamples, h.samples[i].cachedBucket, old(delta(h, i))))
+//@   loop 1 invariant @reported forall i int :: 0 <= i && i <= rangeindex && old(delta(h, i)) != 0 ==> (exists p int :: old(len(calls)) <= p && p < len(calls) && calls[p] == ev(CachedHistogramBucket.ReportSamples, h.samples[i].cachedBucket, old(delta(h, i))))
+//@   loop 1 invariant @consumed forall i int :: 0 <= i && i <= rangeindex ==> h.samples[i].counter.prev == old(h.samples[i].counter.curr)
+//@   loop 1 invariant @pending forall i int :: rangeindex < i && i < len(h.buckets) ==> h.samples[i].counter.prev == old(h.samples[i].counter.prev)
+//@   loop 1 invariant @others_untouched forall c *counter :: (forall i int :: 0 <= i && i < len(h.buckets) ==> c != h.samples[i].counter) ==> c.prev == old(c.prev)
